@@ -74,3 +74,27 @@ func New(name string, idx int) Pair {
 	p.Signer = s
 	return p
 }
+
+// NewCross returns a key pair that uses an ECDSA algorithm with a curve other
+// than the customary one (COSE ties the hash to the algorithm, not the curve:
+// ES256 may be used with a P-384 or P-521 key and so on).
+func NewCross(name string, curveBits int) Pair {
+	p := Pair{Name: name, Alg: algOf[name]}
+	var cv elliptic.Curve
+	switch curveBits {
+	case 256:
+		cv = elliptic.P256()
+	case 384:
+		cv = elliptic.P384()
+	default:
+		cv = elliptic.P521()
+	}
+	k, _ := ecdsa.GenerateKey(cv, rand.Reader)
+	p.Priv, p.Pub = k, &k.PublicKey
+	s, err := cose.NewSigner(p.Alg, p.Priv)
+	if err != nil {
+		panic(err)
+	}
+	p.Signer = s
+	return p
+}
